@@ -21,6 +21,14 @@ def R(mod, name, cfg="rc"):
 
 
 PROPS = {
+    "C03": dict(
+        rules=[R("placeholder", "rule_placeholder")],
+        clause="Every conditional jump emitted for a pattern, alternative, guard, type check or map-key test is filed in "
+               "a placeholder list and patched on every path by the function that owns the list (R-PLACEHOLDER). An "
+               "unpatched placeholder keeps offset 0, so a failed test falls into the arm. Not decided: which arm a "
+               "subject selects, what gets bound.",
+        technique="path-sensitive typestate (linear resources + owned collections) over MIR",
+    ),
     "C12": dict(
         rules=[R("compiler", "rule_span")],
         clause="The compiler's span stack is balanced on every non-error path of every Compiler method, so no construct "
